@@ -398,8 +398,17 @@ def step (s : St) (w : List String) : St × String :=
           (s, line s s!"last={fmtElems [e]} next={nx}" s!"{n} off={q.off} len={q.len} first={q.first}" [(specR, specC s)])
         | x => (s, line s "refused" (resName x) [(specR, specC s)])
     | _, _, _ => (s, "bad-op")
-  | ["g", "reuse", sp, els, txt] =>
-    -- a built path set anew from a text: what was there before does not matter
+  | ["g", "bview", els] =>
+    -- a view whose base path is in binary length mode: the base is the element list
+    match (els.splitOn ",").mapM parseText with
+    | some es =>
+      if s.views.length ≥ 16 ∨ es.any (fun e => e.isEmpty || e.length > 255) then (s, "bad-op") else
+      let s' := { s with views := s.views ++ [es] }
+      (s', line s' "ok" (toString s.views.length) [("ok", specC s')])
+    | none => (s, "bad-op")
+  | "g" :: "reuse" :: sp :: els :: txt :: rest =>
+    -- a built path (separator or binary mode) set anew from a text: what was there before does not matter
+    if rest ≠ [] ∧ rest ≠ ["b"] then (s, "bad-op") else
     match parseChar sp, (els.splitOn ",").mapM parseText, parseText txt with
     | some sp, some _, some txt =>
       let specR := "elems=" ++ fmtElems (PathMap.splitPath sp 0 txt)
